@@ -181,7 +181,8 @@ class ListField(Field):
             raise ValueError("value is required")
 
         if not self.field or isinstance(self.field, AnyField):
-            return value
+            # always store a list (a tuple would come back as a list after save and load)
+            return list(value)
 
         proxy = ListProxy(cfg, self, value)
         return proxy
